@@ -13,6 +13,7 @@ after fixes F7/F20). Values are abstract: a value and the content key of its blo
   any length, whatever way each level obtained its parent (the object handed back by the computing call or
   served by the memory cache — `Part.mem` with recorded keys — or the partition read back from the store).
 * `store_preserves_argument`: serialising does not change what the object handed back to the caller answers.
+* `roundtrip_pickle`: a partition read back from the store and returned again is stored with exactly its entries.
 -/
 namespace Memento.Partition
 
@@ -242,6 +243,98 @@ theorem overlay (own : KV) (parent : Option Part) (rec : Option Index)
       ∀ k, (load ix).get k = (match kvGet own k with | some v => some v | none => getOpt parent k) := by
   obtain ⟨ix, hst, _, hget, _, _⟩ := roundtrip_mem own parent rec hs hf
   exact ⟨ix, _, hst, fun k => by rw [hget k, mem_get]⟩
+
+/-! ### a read-back partition that is returned again (fix F20) -/
+
+theorem ixGet_filter {ix : Index} (hn : (ix.map (·.1)).Nodup) (p : V × Bool → Bool) (k : K) :
+    ixGet (ix.filter (fun e => p e.2)) k = (ixGet ix k).filter p := by
+  induction ix with
+  | nil => rfl
+  | cons x r ih =>
+    obtain ⟨a, y⟩ := x
+    simp only [List.map_cons, List.nodup_cons] at hn
+    by_cases hak : a = k
+    · subst hak
+      have hnone : ixGet r a = none := by
+        cases h : ixGet r a with
+        | none => rfl
+        | some e => exact absurd (ixGet_some_mem h) hn.1
+      by_cases hp : p y = true
+      · simp [List.filter_cons, hp, ixGet, Option.filter]
+      · have hp' : p y = false := by simpa using hp
+        simp only [List.filter_cons, hp', ixGet, if_true, Bool.false_eq_true, if_false]
+        rw [ih hn.2, hnone]; simp [Option.filter, hp']
+    · by_cases hp : p y = true
+      · simp only [List.filter_cons, hp, if_true, ixGet, hak, if_false]; exact ih hn.2
+      · have hp' : p y = false := by simpa using hp
+        simp only [List.filter_cons, hp', Bool.false_eq_true, if_false, ixGet, hak]; exact ih hn.2
+
+theorem kvGet_map_ix (ix : Index) (k : K) :
+    kvGet (ix.map (fun e => (e.1, e.2.1))) k = (ixGet ix k).map (·.1) := by
+  induction ix with
+  | nil => rfl
+  | cons x r ih =>
+    obtain ⟨a, v, b⟩ := x
+    simp only [List.map_cons, kvGet, ixGet]
+    by_cases h : a = k
+    · simp [h]
+    · simp only [h, if_false]; exact ih
+
+/-- the index written when a read-back partition is stored again -/
+def repickled (ix : Index) : Index :=
+  layer ((ix.filter (fun e => !e.2.2)).map (fun e => (e.1, e.2.1)))
+    (sortKeys (((ix.filter (fun e => !e.2.2)).map (fun e => (e.1, e.2.1))).map (·.1))) (ix.filter (fun e => e.2.2))
+
+theorem store_pickle (ix : Index) : store (.pickle ix) = some (repickled ix, .pickle ix) := rfl
+
+theorem repickled_get {ix : Index} (hn : (ix.map (·.1)).Nodup) (k : K) : ixGet (repickled ix) k = ixGet ix k := by
+  unfold repickled
+  rw [layer_get, kvGet_map_ix, ixGet_filter hn (fun e => !e.2), ixGet_filter hn (fun e => e.2)]
+  cases h : ixGet ix k with
+  | none => simp [Option.filter]
+  | some e =>
+    obtain ⟨v, b⟩ := e
+    cases b with
+    | false =>
+      have hm : k ∈ sortKeys (((ix.filter (fun e => !e.2.2)).map (fun e => (e.1, e.2.1))).map (·.1)) := by
+        rw [mem_sortKeys]
+        apply kvGet_some_mem (v := v)
+        rw [kvGet_map_ix, ixGet_filter hn (fun e => !e.2), h]; simp [Option.filter]
+      simp only [hm, if_true]
+      simp [Option.filter]
+    | true => simp [Option.filter]
+
+theorem repickled_nodup {ix : Index} (hn : (ix.map (·.1)).Nodup) : ((repickled ix).map (·.1)).Nodup := by
+  unfold repickled
+  apply layer_nodup
+  exact (List.filter_sublist.map _).nodup hn
+
+/-- **round trip of a read-back partition returned again**: what is stored has exactly the entries of the index it was
+    read from (inherited keys included), flags preserved -/
+theorem roundtrip_pickle (ix : Index) (hn : (ix.map (·.1)).Nodup) :
+    ∃ ix', store (.pickle ix) = some (ix', .pickle ix) ∧ (ix'.map (·.1)).Nodup ∧ (∀ k, ixGet ix' k = ixGet ix k) ∧
+      (∀ k, (load ix').get k = (Part.pickle ix).get k) ∧
+      (∀ b, (load ix').listKeys b = (Part.pickle ix).listKeys b) := by
+  have hget := repickled_get hn
+  have hnd := repickled_nodup hn
+  refine ⟨repickled ix, store_pickle ix, hnd, hget, ?_, ?_⟩
+  · intro k
+    simp only [load, Part.get, hget k]
+  · intro b
+    cases b with
+    | true =>
+      simp only [load, Part.listKeys, if_true]
+      apply sortKeys_congr
+      intro k
+      constructor
+      · intro hk; obtain ⟨e, he⟩ := ixGet_of_mem hk; rw [hget k] at he; exact ixGet_some_mem he
+      · intro hk; obtain ⟨e, he⟩ := ixGet_of_mem hk; rw [← hget k] at he; exact ixGet_some_mem he
+    | false =>
+      simp only [load, Part.listKeys, Bool.false_eq_true, if_false]
+      apply sortKeys_congr
+      intro k
+      rw [mem_ownKeys hnd, mem_ownKeys hn]
+      simp only [hget k]
 
 /-! ### chains of any length, any provenance of the parent at each level -/
 
